@@ -199,6 +199,8 @@ func (m *CPU) Run(app risc.Application) (int, error) {
 				for _, wu := range m.writeUnits {
 					for !wu.isEmpty() || !m.writeBus.IsEmpty() {
 						_ = wu.Cycle(wuReq{sequenceID})
+						// What the queue could not take yet
+						m.writeBus.Connect(cycle + 1)
 					}
 				}
 				if isEmpty {
